@@ -183,8 +183,10 @@ XpoaClass(c, v, ts, dv) ==
 (*   pk     - the public key it carries belongs to "miner" / "other" / is "garbage"                *)
 (*   signer - whose private key made the signature ("miner" / "other"), or "garbage" bytes         *)
 (*   over   - what was signed: the block id ("id") or something else ("else")                      *)
+(*   hf     - the height FIELD the candidate carries: its real height, 0, or far above the tip.  The field is not   *)
+(*            covered by the block id (the ledger overwrites it from the parent), so it must not matter.          *)
 SingleCaseSet == [idok : BOOLEAN, prop : {"miner", "other"}, pk : {"miner", "other", "garbage"},
-                  signer : {"miner", "other", "garbage"}, over : {"id", "else"}]
+                  signer : {"miner", "other", "garbage"}, over : {"id", "else"}, hf : {"real", "zero", "far"}]
 SingleSeq == SetToSeq(SingleCaseSet)
 SingleClass(k) ==
   IF ~k.idok THEN "rej"                      \* MakeBlockId() # GetBlockid()
